@@ -10,7 +10,10 @@
      * the tree of handlers derived from it with WithAttrs / WithGroup;
      * the probes Enabled(level), Handle(record) (through a real log/slog.Logger or with a
        hand-made record carrying its own time) and Entry.Log(level);
-     * the std-log bridge: NewLogLogger(logger, severity), Print(msg) / Writer().Write(bytes).
+     * the std-log bridge: NewLogLogger(logger, severity), Print(msg) / Writer().Write(bytes);
+     * the PROCESS-WIDE LEVEL REGISTRY: RegisterLevel(custom value, title, RegWithTreatedAsLevel,
+       RegWithPrintToErrorDevice, RegWithShortTags) may happen at any moment of a process's life -
+       before the handler/bridge is made, between two records - and cannot be undone.
 
    STYLE: functional core.  `st` is the whole abstract state; each public call is a pure
    operator over it.  The same operators are used by the exhaustive specification (Next), by
@@ -26,27 +29,61 @@
      hs      the handlers made so far (1 = the one NewSlogHandler returned); each entry is
                s      MECHANISM state, computed step by step:
                         lg    [level, fmt, dest]  configuration the handler logs with
-                        pre   groups opened by WithGroup (outermost first)
+                        pre   groups opened by WithGroup (outermost first); preo their ordinals
                         added attributes given by WithAttrs, already qualified (leaf records)
+                        n     number of derivation steps behind the handler
                hist   GHOST: the derivation steps from the root handler, used only to state
                       the property declaratively
                parent id of the handler it was derived from (0 for the root)
-     br      the bridge: [sev] severity given to NewLogLogger
+     br      the bridge: [sev] severity given to NewLogLogger (a built-in or a registered level)
+     reg     GHOST: what was registered in this process, custom value -> [treat, err] as the caller
+             asked (treat = NoTreat when RegWithTreatedAsLevel was not given)
+     treat, errdev, rev   MECHANISM tables of the process: treated-as table, the set of levels
+             routed to the error device, and the table log/slog level -> severity the handler
+             consults for the four standard levels.  A new process starts with the factory tables;
+             nothing but RegisterStep writes them, and the property says which entries it may write.
 
-   ATTRIBUTES are kept flattened: a shape is a sequence of leaves [p, k, v] - p the path of keys
-   (groups outermost first, the leaf's key last), k the value kind, v the value id.  A LogValuer
-   is a leaf/group whose concrete value the harness wraps; "resolved" means the expected leaves
-   are the resolved ones, so the specification does not distinguish them.  A qualified leaf
-   [p, k, v, q] also remembers how many leading path elements come from WithGroup (q): the
-   statement does not say whether those appear as nesting or not, so both are accepted.
+   ATTRIBUTE TREES AND EQUAL KEYS.  What one handler record carries is ONE tree, in LOGICAL ORDER:
+   the derivation steps in the order they were made - a WithAttrs step contributes its attributes at
+   the nesting level current at that moment, a WithGroup step opens a group that contains everything
+   that follows - and then the record's own attributes, innermost.  The statement says "all its
+   attributes" and "add what was given"; it says nothing about two attributes with the same key in
+   the same group.  The underlying logger does (SetAttrs/WithAttrs doc: "If duplicated attr found,
+   the parent's will be overwritten"; LoggCore!Merge: each distinct key once, the LAST occurrence
+   winning, the same inside every group; call-site attributes come after the logger's).  Hence:
+     * among several attributes (leaves or groups) with the same key in the same group instance the
+       LAST one in logical order is a MUST: it has to be in the output with its kind and value;
+     * an earlier one is DISPLACED: the statement ("all") and the native rule ("once") disagree, so
+       both outcomes are accepted - printed as well, or dropped;
+     * everything below a displaced group is displaced with it.
+   Consequences (invariants RecordWins, AddsGiven): a record attribute is never displaced by an
+   attribute of the handler (the record comes last at its level), a later WithAttrs displaces an
+   earlier one, the last of two equal keys inside one list displaces the first.
+
+   ATTRIBUTES are kept flattened: a shape is a sequence of leaves [p, k, v, o] - p the path of keys
+   (groups outermost first, the leaf's key last), k the value kind, v the value id, o the path of
+   ORDINALS: o[d] is the position of the leaf's ancestor at depth d (the leaf itself for the last
+   d) in the list it was given in; two leaves lie in the same group INSTANCE at depth d iff their
+   p and o agree on the first d elements (two groups with the same key in one list are different
+   instances).  In a qualified leaf the ordinal of a top-level element of derivation step i is
+   i*K + position, a WithGroup step i has ordinal i*K, the record is step n+1: integer order =
+   logical order.  A LogValuer is a leaf/group whose concrete value the harness wraps; "resolved"
+   means the expected leaves are the resolved ones, so the specification does not distinguish
+   them.  A qualified leaf [p, k, v, o, q] also remembers how many leading path elements come
+   from WithGroup (q): the statement does not say whether those appear as nesting or not, so
+   both are accepted.
 
    OPERATORS THAT STATE THE PROPERTY
      MapLevel            the allowed severities per log/slog level (namesakes; non-terminating
                          unless the explicit Fatal/Panic constants)         -> StdNamesake, NoTerminating
+     RegisterStep, StdIndependent, RegistryLocal, RegistrationLocal (action property)
+                         a standard-level record's severity, gating and destination do not depend
+                         on any registration; a registration writes the entries of its own value only
      EnabledSet          Handler.Enabled = the logger's gating (Levels!Admit) -> EnabledAgrees
      Canon, GivenBy,
      OpenGroups          one record: message, record time, all attributes, given attributes
                                                                             -> AddsGiven, RecordComplete
+     Displaced, Must     equal keys (see above)                             -> RecordWins
      KeepsConfig         derived handlers keep destination, format and level
      BridgeEmitSet,
      BridgeMsg           bridge admission and message minus one trailing newline
@@ -55,14 +92,20 @@
    for witness runs - each must make an invariant fail - and to name known findings precisely)
      "DerivedFresh"          WithAttrs/WithGroup return a handler over a fresh detached logger
      "BridgeInverted"        the bridge emits iff severity >= logger level (numerically)
-     "EntryLogUnknownFatal"  Entry.Log maps every unlisted log/slog level to Fatal            *)
+     "EntryLogUnknownFatal"  Entry.Log maps every unlisted log/slog level to Fatal
+   WITNESS-ONLY DEVIATIONS (never seen in the pinned library; each must break its invariant, which
+   shows that the explored cell space contains the collisions / registrations that matter)
+     "AttrsBehindRecord"     the handler's attributes are ordered behind the record's   (RecordWins)
+     "RegRemapsStd"          RegisterLevel(c, treated as X) also makes X's log/slog namesake map to c
+                                                                    (StdIndependent, RegistrationLocal)
+     "RegErrDevOfTreated"    RegWithPrintToErrorDevice also routes the treated-as level (RegistryLocal) *)
 EXTENDS Levels, SequencesExt, FiniteSetsExt
 
 CONSTANTS
     Roots,           \* sequence of set-ups [L, oi]: level the logger has before, index into Opts
     Opts,            \* sequence of HandlerOptions: [nocolor, nosource, json, level] (level 0 = unset)
     SlogLevels,      \* log/slog level values probed
-    RecShapes,       \* sequence of record attribute shapes (sequences of leaves [p, k, v])
+    RecShapes,       \* sequence of record attribute shapes (sequences of leaves [p, k, v, o])
     DerivShapes,     \* sequence of attribute shapes given to WithAttrs
     GroupNames,      \* set of names given to WithGroup
     MaxHandlers,     \* bound on handlers per behaviour in the exhaustive model
@@ -73,11 +116,15 @@ CONSTANTS
     BridgeCfgs,      \* sequence of bridge set-ups [L, sev, f]: logger level, bridge severity, format
     BMsgs,           \* sequence of std-log messages (byte sequences)
     PkgLevel,        \* package default level = level of a fresh detached logger (deviation only)
+    RegCells,        \* sequence of registrations offered: [val, treat, err] (treat = NoTreat: none)
+    MaxRegs,         \* bound on registrations per process in the exhaustive model
     Deviations       \* enabled deviations (see above); {} = the property's own model
 
 VARIABLE st
 
 NL == 10
+K == 1000                       \* ordinal stride of one derivation step
+NoTreat == MaxLevel             \* "RegWithTreatedAsLevel not given"
 
 -----------------------------------------------------------------------------
 (* log/slog levels *)
@@ -86,13 +133,36 @@ Std == {-4, 0, 4, 8}
 Explicit == {16, 17}            \* slog.LevelFatal, slog.LevelPanic of the library
 Namesake(v) == CASE v = -4 -> Debug [] v = 0 -> Info [] v = 4 -> Warn [] v = 8 -> Error
 
-NonTerminating == {r \in Builtin : ~Terminating(r)}
+SlogOf(r) == CASE r = Debug -> -4 [] r = Info -> 0 [] r = Warn -> 4 [] r = Error -> 8
 
-\* the severities a log/slog level may be mapped to
-MapLevel(v) ==
-    IF v \in Std THEN {Namesake(v)}
-    ELSE IF v \in Explicit THEN Builtin
-    ELSE NonTerminating
+-----------------------------------------------------------------------------
+(* the process-wide level registry *)
+
+RevInit == [v \in Std |-> Namesake(v)]
+
+Customs(s) == DOMAIN s.reg
+LevelsOf(s) == Builtin \cup Customs(s)
+TerminatingIn(s, r) == Terminating(AsBuiltin(r, s.treat))
+
+CanRegister(s, c) == c.val \notin LevelsOf(s) /\ Cardinality(Customs(s)) < MaxRegs
+
+\* RegisterLevel(c.val, title, options): writes the entries of c.val and nothing else
+RegisterStep(s, c) ==
+    [s EXCEPT !.reg = (c.val :> [treat |-> c.treat, err |-> c.err]) @@ @,
+              !.treat = IF c.treat # NoTreat THEN (c.val :> c.treat) @@ @ ELSE @,
+              !.errdev = @ \cup (IF c.err THEN {c.val} ELSE {})
+                           \cup (IF c.err /\ c.treat # NoTreat /\ "RegErrDevOfTreated" \in Deviations THEN {c.treat} ELSE {}),
+              !.rev = IF "RegRemapsStd" \in Deviations /\ c.treat \in {Debug, Info, Warn, Error}
+                      THEN [@ EXCEPT ![SlogOf(c.treat)] = c.val] ELSE @]
+
+\* the severities a log/slog level may be mapped to (declarative): the four standard levels have
+\* their namesakes WHATEVER has been registered; elsewhere the statement only excludes
+\* terminating severities
+NonStdSevs(s, v) == IF v \in Explicit THEN LevelsOf(s) ELSE {r \in LevelsOf(s) : ~TerminatingIn(s, r)}
+MapLevel(s, v) == IF v \in Std THEN {Namesake(v)} ELSE NonStdSevs(s, v)
+
+\* the mechanism: the handler looks the standard levels up in the process's table
+HandleSevs(s, v) == IF v \in Std THEN {s.rev[v]} ELSE NonStdSevs(s, v)
 
 \* what Entry.Log does in the pinned library (level.go: logsloglevel2Level)
 CodeEntryLogLevel(v) ==
@@ -100,12 +170,13 @@ CodeEntryLogLevel(v) ==
       [] v = -16 -> Trace [] v = -8 -> Trace [] v = 2 -> Info [] v = 3 -> Info
       [] v = 16 -> Fatal [] v = 17 -> Panic [] OTHER -> Fatal
 
-EntryLogSevs(v) ==
-    MapLevel(v) \cup (IF "EntryLogUnknownFatal" \in Deviations THEN {CodeEntryLogLevel(v)} ELSE {})
+EntryLogSevs(s, v) ==
+    MapLevel(s, v) \cup (IF "EntryLogUnknownFatal" \in Deviations THEN {CodeEntryLogLevel(v)} ELSE {})
 
-\* the logger's gating rule (property C01); dbg = the process-wide debug mode, which the library
-\* switches on - for good - whenever some logger is given the level Debug
-Gate(dbg, L, r) == Admit(L, r, dbg, TreatInit)
+\* the logger's gating rule (property C01); s.dbg = the process-wide debug mode, which the library
+\* switches on - for good - whenever some logger is given the level Debug; s.treat = the
+\* process's treated-as table
+Gate(s, L, r) == Admit(L, r, s.dbg, s.treat)
 
 -----------------------------------------------------------------------------
 (* the underlying logger and the handlers *)
@@ -115,17 +186,19 @@ FmtOf(o) == IF o.json THEN "json" ELSE IF o.nocolor THEN "logfmt" ELSE "color"
 \* NewSlogHandler(logger at level L, options o): the logger afterwards
 AdaptedLogger(L, o) == [level |-> IF o.level # Panic THEN o.level ELSE L, fmt |-> FmtOf(o)]
 
-RootHandler(lgr) == [lg |-> [level |-> lgr.level, fmt |-> lgr.fmt, dest |-> "cfg"], pre |-> <<>>, added |-> <<>>]
+RootHandler(lgr) == [lg |-> [level |-> lgr.level, fmt |-> lgr.fmt, dest |-> "cfg"], pre |-> <<>>, preo |-> <<>>, added |-> <<>>, n |-> 0]
 
 \* the handler the pinned library returns from WithAttrs/WithGroup: a fresh detached logger in
 \* its factory configuration writing to the package's default destination, nothing remembered
-FreshHandler == [lg |-> [level |-> PkgLevel, fmt |-> "color", dest |-> "default"], pre |-> <<>>, added |-> <<>>]
+FreshHandler == [lg |-> [level |-> PkgLevel, fmt |-> "color", dest |-> "default"], pre |-> <<>>, preo |-> <<>>, added |-> <<>>, n |-> 0]
 
-Qualify(pre, leaves) ==
-    [i \in 1..Len(leaves) |-> [p |-> pre \o leaves[i].p, k |-> leaves[i].k, v |-> leaves[i].v, q |-> Len(pre)]]
+\* the leaves of one list given at derivation step `step` under the open groups pre (ordinals preo)
+Qualify(pre, preo, step, leaves) ==
+    [i \in 1..Len(leaves) |-> [p |-> pre \o leaves[i].p, o |-> preo \o <<step * K + leaves[i].o[1]>> \o Tail(leaves[i].o),
+                               k |-> leaves[i].k, v |-> leaves[i].v, q |-> Len(pre)]]
 
-WithAttrsI(h, as) == [h EXCEPT !.added = @ \o Qualify(h.pre, as)]
-WithGroupI(h, g) == [h EXCEPT !.pre = Append(@, g)]
+WithAttrsI(h, as) == [h EXCEPT !.n = @ + 1, !.added = @ \o Qualify(h.pre, h.preo, h.n + 1, as)]
+WithGroupI(h, g) == [h EXCEPT !.n = @ + 1, !.pre = Append(@, g), !.preo = Append(@, (h.n + 1) * K)]
 
 \* allowed successors of a derivation (the second disjunct only when the deviation is enabled)
 DeriveSet(ideal) == {ideal} \cup (IF "DerivedFresh" \in Deviations THEN {FreshHandler} ELSE {})
@@ -134,18 +207,39 @@ DeriveSet(ideal) == {ideal} \cup (IF "DerivedFresh" \in Deviations THEN {FreshHa
 (* what a handler does with a record *)
 
 \* Handler.Enabled(v): fixed for the four standard levels, unconstrained otherwise
-EnabledSet(h, v, dbg) == IF v \in Std THEN {Gate(dbg, h.lg.level, Namesake(v))} ELSE BOOLEAN
+EnabledSet(s, h, v) == IF v \in Std THEN {Gate(s, h.lg.level, Namesake(v))} ELSE BOOLEAN
 
 \* the one record Handle emits, once the severity sev \in MapLevel(v) is fixed:
 \* t = time id of the record (0 = "taken by log/slog.Logger during the call"), m = message bytes
+\* the record's own attributes come last at their level (step n + 1)
+RecStep(h) == IF "AttrsBehindRecord" \in Deviations THEN 0 ELSE h.n + 1
 Canon(h, sev, sh, t, m) ==
     [dest |-> h.lg.dest, fmt |-> h.lg.fmt, sev |-> sev, msg |-> m, t |-> t,
-     given |-> h.added, rec |-> Qualify(h.pre, RecShapes[sh])]
+     given |-> h.added, rec |-> Qualify(h.pre, h.preo, RecStep(h), RecShapes[sh])]
 
 \* destination class of a record: the logger routes by severity (error device or not)
-WriterOf(dest, sev) ==
-    IF dest = "cfg" THEN (IF ErrClass(sev, ErrDevInit) THEN 2 ELSE 1)
-    ELSE (IF ErrClass(sev, ErrDevInit) THEN -2 ELSE -1)
+WriterOf(s, dest, sev) ==
+    IF dest = "cfg" THEN (IF ErrClass(sev, s.errdev) THEN 2 ELSE 1)
+    ELSE (IF ErrClass(sev, s.errdev) THEN -2 ELSE -1)
+
+-----------------------------------------------------------------------------
+(* equal keys: which leaves of a set S of qualified leaves must be in the output *)
+
+\* M lies in the same group instance as L at depth d and has L's key there
+SameSlot(L, M, d) ==
+    /\ d <= Len(L.p) /\ d <= Len(M.p)
+    /\ SubSeq(M.p, 1, d) = SubSeq(L.p, 1, d)
+    /\ SubSeq(M.o, 1, d - 1) = SubSeq(L.o, 1, d - 1)
+
+\* L, or a group around it, is followed in logical order by an attribute with the same key
+Displaced(L, S) == \E M \in S : \E d \in 1..Len(L.p) : SameSlot(L, M, d) /\ M.o[d] > L.o[d]
+
+\* L, or a group around it, shares its key with some other attribute (before or after it)
+Contested(L, S) == \E M \in S : \E d \in 1..Len(L.p) : SameSlot(L, M, d) /\ M.o[d] # L.o[d]
+
+Must(S) == {L \in S : ~Displaced(L, S)}
+
+AllLeaves(c) == ToSet(c.given) \cup ToSet(c.rec)
 
 -----------------------------------------------------------------------------
 (* declarative side: what the history of derivations promises *)
@@ -156,9 +250,16 @@ OpenGroups(hist) ==
     ELSE LET r == OpenGroups(Front(hist)) l == Last(hist)
          IN IF l.op = "group" THEN Append(r, l.g) ELSE r
 
-\* every attribute given by a WithAttrs step, under the groups opened before that step
+\* ordinals of the groups opened by a history: step index * K
+OpenOrds(hist) ==
+    LET idx == SetToSortSeq({x \in 1..Len(hist) : hist[x].op = "group"}, <)
+    IN [j \in 1..Len(idx) |-> idx[j] * K]
+
+\* every attribute given by a WithAttrs step, under the groups opened before that step, at the
+\* place of that step in the logical order
 GivenBy(hist) ==
     UNION {{[p |-> OpenGroups(SubSeq(hist, 1, i - 1)) \o DerivShapes[hist[i].a][j].p,
+             o |-> OpenOrds(SubSeq(hist, 1, i - 1)) \o <<i * K + DerivShapes[hist[i].a][j].o[1]>> \o Tail(DerivShapes[hist[i].a][j].o),
              k |-> DerivShapes[hist[i].a][j].k, v |-> DerivShapes[hist[i].a][j].v,
              q |-> Len(OpenGroups(SubSeq(hist, 1, i - 1)))] : j \in 1..Len(DerivShapes[hist[i].a])}
            : i \in {x \in 1..Len(hist) : hist[x].op = "attrs"}}
@@ -173,8 +274,8 @@ StdLogBytes(m) == IF m = <<>> \/ Last(m) # NL THEN Append(m, NL) ELSE m
 \* the record's message: the written bytes minus ONE trailing newline
 BridgeMsg(b) == IF b # <<>> /\ Last(b) = NL THEN Front(b) ELSE b
 
-BridgeEmitSet(dbg, L, sev) ==
-    {Gate(dbg, L, sev)} \cup (IF "BridgeInverted" \in Deviations THEN {sev >= L} ELSE {})
+BridgeEmitSet(s, L, sev) ==
+    {Gate(s, L, sev)} \cup (IF "BridgeInverted" \in Deviations THEN {sev >= L} ELSE {})
 
 FirstLine(m) ==
     LET nls == {i \in 1..Len(m) : m[i] = NL}
@@ -187,8 +288,12 @@ Blank(m) == \A i \in 1..Len(m) : m[i] = NL
 
 NoBridge == [sev |-> 0]
 
+\* a new process
 InitState == [phase |-> "init", lg |-> [level |-> PkgLevel, fmt |-> "color"], caller |-> FALSE, dbg |-> FALSE,
-              hs |-> <<>>, br |-> NoBridge]
+              hs |-> <<>>, br |-> NoBridge, reg |-> <<>>, treat |-> TreatInit, errdev |-> ErrDevInit, rev |-> RevInit]
+
+\* a new behaviour in the SAME process: loggers, handlers, flags are made anew, the registry stays
+ResetState(s) == [InitState EXCEPT !.reg = s.reg, !.treat = s.treat, !.errdev = s.errdev, !.rev = s.rev]
 
 Entry(s, hist, parent) == [s |-> s, hist |-> hist, parent |-> parent]
 
@@ -222,9 +327,12 @@ Handle(h, ci) == Probed(st, h) /\ UNCHANGED st
 EntryLog(v) == st.phase = "handler" /\ Len(st.hs) = 1 /\ UNCHANGED st
 NewBridgeStep(s, L, sev, f) == [s EXCEPT !.phase = "bridge", !.lg = [level |-> L, fmt |-> f], !.br = [sev |-> sev],
                                           !.dbg = s.dbg \/ L = Debug]
-NewBridge(bi) == st.phase = "init" /\ st' = NewBridgeStep(st, BridgeCfgs[bi].L, BridgeCfgs[bi].sev, BridgeCfgs[bi].f)
+NewBridge(bi) == st.phase = "init" /\ BridgeCfgs[bi].sev \in LevelsOf(st)
+                 /\ st' = NewBridgeStep(st, BridgeCfgs[bi].L, BridgeCfgs[bi].sev, BridgeCfgs[bi].f)
 BridgeWrite(mi) == st.phase = "bridge" /\ UNCHANGED st
 BridgePrint(mi) == st.phase = "bridge" /\ UNCHANGED st
+\* RegisterLevel: at any moment - before the handler/bridge exists, or between two probes
+Register(ci) == CanRegister(st, RegCells[ci]) /\ st' = RegisterStep(st, RegCells[ci])
 
 Next ==
     \/ \E ri \in DOMAIN Roots : NewHandler(ri)
@@ -236,11 +344,12 @@ Next ==
     \/ \E bi \in DOMAIN BridgeCfgs : NewBridge(bi)
     \/ \E mi \in DOMAIN BMsgs : BridgeWrite(mi)
     \/ \E mi \in DOMAIN BMsgs : BridgePrint(mi)
+    \/ \E ci \in DOMAIN RegCells : Register(ci)
 
 Init == st = InitState
 Spec == Init /\ [][Next]_st
 
-DumpAlias == [n |-> Len(st.hs)]
+DumpAlias == [n |-> Len(st.hs), r |-> Cardinality(DOMAIN st.reg)]
 
 -----------------------------------------------------------------------------
 (* Invariants: the property, evaluated in every reachable state for ALL probe arguments *)
@@ -254,14 +363,19 @@ TypeOK ==
     /\ Len(st.hs) <= MaxHandlers
     /\ st.phase = "handler" <=> Len(st.hs) >= 1
     /\ \A h \in Handlers : st.hs[h].parent \in 0..(h - 1) /\ (st.hs[h].parent = 0 <=> h = 1)
+    /\ Cardinality(DOMAIN st.reg) <= MaxRegs /\ DOMAIN st.reg \cap Builtin = {}
+    /\ DOMAIN st.rev = Std
+    /\ st.br.sev \in LevelsOf(st)
 
 \* "handlers derived with WithAttrs/WithGroup keep the destination, format and level"
 KeepsConfig == \A h \in Handlers : st.hs[h].s.lg = RootCfg
 
 \* "... and add what was given": the step-by-step mechanism state carries exactly the attributes
 \* the derivation history promises, each under the groups open when it was given
-AddsGiven == \A h \in Handlers : ToSet(st.hs[h].s.added) = GivenBy(st.hs[h].hist)
+AddsGiven == \A h \in Handlers : /\ ToSet(st.hs[h].s.added) = GivenBy(st.hs[h].hist)
                                   /\ st.hs[h].s.pre = OpenGroups(st.hs[h].hist)
+                                  /\ st.hs[h].s.preo = OpenOrds(st.hs[h].hist)
+                                  /\ st.hs[h].s.n = Len(st.hs[h].hist)
 
 \* "emitted once ... with the same message, the record's own time, all its attributes"
 RecordComplete ==
@@ -276,27 +390,61 @@ RecordComplete ==
                      /\ \A x \in 1..Len(r.rec) :
                             /\ r.rec[x].p = og \o RecShapes[sh][x].p
                             /\ r.rec[x].k = RecShapes[sh][x].k /\ r.rec[x].v = RecShapes[sh][x].v
+                            /\ Tail(SubSeq(r.rec[x].o, Len(og) + 1, Len(r.rec[x].o))) = Tail(RecShapes[sh][x].o)
                      /\ ToSet(r.given) = gb
            \* message, time, severity as given; destination and format of the set-up
-           /\ \A v \in SlogLevels, t \in {0, 1}, mi \in DOMAIN HMsgs : \A sev \in MapLevel(v) :
+           /\ \A v \in SlogLevels, t \in {0, 1}, mi \in DOMAIN HMsgs : \A sev \in MapLevel(st, v) :
                   LET r == Canon(hs, sev, 1, t, HMsgs[mi])
                   IN r.msg = HMsgs[mi] /\ r.t = t /\ r.sev = sev /\ r.dest = "cfg" /\ r.fmt = st.lg.fmt
 
-\* "the namesake severity for Debug/Info/Warn/Error"
+\* equal keys: an attribute of the record is never displaced by an attribute of the handler -
+\* whatever displaces it is an attribute of the same record (the later of two equal keys)
+RecordWins ==
+    \A h \in Handlers, sh \in DOMAIN RecShapes :
+        LET c == Canon(st.hs[h].s, Info, sh, 1, HMsgs[1])
+        IN \A L \in ToSet(c.rec) : Displaced(L, AllLeaves(c)) => Displaced(L, ToSet(c.rec))
+
+\* "the namesake severity for Debug/Info/Warn/Error" - in every state, i.e. whatever was registered
 StdNamesake ==
-    st.phase = "handler" =>
-        /\ MapLevel(-4) = {Debug} /\ MapLevel(0) = {Info} /\ MapLevel(4) = {Warn} /\ MapLevel(8) = {Error}
-        /\ \A v \in Std : EntryLogSevs(v) = {Namesake(v)}
+    /\ MapLevel(st, -4) = {Debug} /\ MapLevel(st, 0) = {Info} /\ MapLevel(st, 4) = {Warn} /\ MapLevel(st, 8) = {Error}
+    /\ \A v \in Std : EntryLogSevs(st, v) = {Namesake(v)}
+
+\* a standard-level record does not depend on the registry: the mechanism's table still holds the
+\* namesakes, and their gating and destination are those of a process that never registered anything
+StdIndependent ==
+    \A v \in Std :
+        /\ HandleSevs(st, v) = {Namesake(v)}
+        /\ WriterOf(st, "cfg", Namesake(v)) = WriterOf(InitState, "cfg", Namesake(v))
+        /\ \A L \in Panic..Always : Gate(st, L, Namesake(v)) = Admit(L, Namesake(v), st.dbg, TreatInit)
+
+\* custom registrations only affect their own value: the built-in levels keep their factory
+\* entries, every registered level has exactly what its registration asked for
+RegistryLocal ==
+    /\ \A r \in Builtin : AsBuiltin(r, st.treat) = AsBuiltin(r, TreatInit) /\ (r \in st.errdev <=> r \in ErrDevInit)
+    /\ \A c \in DOMAIN st.reg :
+           /\ AsBuiltin(c, st.treat) = (IF st.reg[c].treat = NoTreat THEN c ELSE st.reg[c].treat)
+           /\ (c \in st.errdev <=> st.reg[c].err)
+    /\ DOMAIN st.treat \subseteq LevelsOf(st) /\ st.errdev \subseteq LevelsOf(st)
+
+\* the same as an action property: a step that registers a level changes nothing else - not the
+\* standard levels' mapping, not the entries of any level that existed before, not the handlers
+RegistrationLocal ==
+    [][st'.reg # st.reg =>
+          /\ \A v \in Std : HandleSevs(st', v) = HandleSevs(st, v)
+          /\ \A r \in LevelsOf(st) : /\ AsBuiltin(r, st'.treat) = AsBuiltin(r, st.treat)
+                                     /\ (r \in st'.errdev <=> r \in st.errdev)
+          /\ st'.phase = st.phase /\ st'.lg = st.lg /\ st'.hs = st.hs /\ st'.br = st.br
+          /\ st'.dbg = st.dbg /\ st'.caller = st.caller]_st
 
 \* "for which the handler's Enabled answers exactly as the underlying logger's gating does"
-EnabledAgrees == \A h \in Handlers, v \in Std : EnabledSet(st.hs[h].s, v, st.dbg) = {Gate(st.dbg, st.lg.level, Namesake(v))}
+EnabledAgrees == \A h \in Handlers, v \in Std : EnabledSet(st, st.hs[h].s, v) = {Gate(st, st.lg.level, Namesake(v))}
 
 \* "no level other than the explicit Fatal/Panic constants maps to a terminating severity"
 NoTerminating ==
-    st.phase = "handler" => \A v \in SlogLevels \ Explicit : \A r \in MapLevel(v) \cup EntryLogSevs(v) : ~Terminating(r)
+    st.phase = "handler" => \A v \in SlogLevels \ Explicit : \A r \in MapLevel(st, v) \cup EntryLogSevs(st, v) : ~TerminatingIn(st, r)
 
 \* "as one record at the bridge's severity exactly when the logger admits that severity"
-BridgeGate == st.phase = "bridge" => BridgeEmitSet(st.dbg, st.lg.level, st.br.sev) = {Gate(st.dbg, st.lg.level, st.br.sev)}
+BridgeGate == st.phase = "bridge" => BridgeEmitSet(st, st.lg.level, st.br.sev) = {Gate(st, st.lg.level, st.br.sev)}
 
 \* "each message, minus its trailing newline": from the std-log user's point of view
 BridgeMsgInv ==
